@@ -424,6 +424,11 @@ def admission(ctx):
 def chains(ctx):
     """verify_sequence_of_certificates for chains of length 1 and 2 (AT, then its AA): the returned ticket and everything learnt on the way
     verify under issuers trusted before the call"""
+    _chains(ctx, False)
+
+
+def _chains(ctx, learning_only):
+    """learning_only: only the obligation of C05 'a ticket that arrived in a message and was accepted is known afterwards'"""
     nope = lambda v: (True, "verify_sequence_of_certificates accepted / learnt a certificate that does not verify under an already trusted issuer (logic-level model)")
     for n in (1, 2):
         M = LibModel()
@@ -480,6 +485,28 @@ def chains(ctx):
                 returned = r_ is not None and dicts["msg_at"]["issuer"][0] != "self"
                 bad = ((returned or learnt) and not ok) or lib.known_root_certificates != before_root
                 return bad, f"chain of {n}: ticket {summary(dicts['msg_at'])} returned={r_ is not None}, learnt={bool(learnt)}, every link verifies under a trusted issuer={ok}"
+        if learning_only:
+            def learnt_replay(vals, sc=sc, n=n):
+                try:
+                    with fake_coder():
+                        dicts, backend, hid = sc.build(vals)
+                        lib = real_library(vals, dicts, backend)
+                        seq = [dicts["msg_at"]] + ([dicts["msg_aa"]] if n == 2 else [])
+                        try:
+                            r_ = lib.verify_sequence_of_certificates(seq, backend)
+                        except Exception as e:          # noqa
+                            return False, f"raised {e!r}"
+                        accepted = r_ is not None and dicts["msg_at"]["issuer"][0] != "self"
+                        known = hid(dicts["msg_at"]) in lib.known_authorization_tickets
+                        return accepted and not known, f"chain of {n}: ticket {summary(dicts['msg_at'])} accepted={accepted}, known to the library afterwards={known} " \
+                            "(a later message of the same sender signed with the digest only could not be resolved)"
+                finally:
+                    sc.done()
+            f_after, _ = I.sdict_lookup(M.ats, M.hid_of(at.d))
+            ctx.witness(f"chain{n}-reach-accepted", I, z3.And(got, z3.Not(exc)), vars=vars_)
+            ctx.prove(f"chain{n}-accepted-ticket-is-known-afterwards", I, z3.And(got, at.v["issuer_kind"] != 0, z3.Not(exc), z3.Not(I._lb(f_after))), vars=vars_, replay=learnt_replay,
+                      desc="a ticket that arrived with a message and was accepted by the chain check is stored, so that the sender's following digest-signed messages are accepted at once")
+            continue
         known_already = z3.And(M.has_at, bytes_eq(M.hid_of(at.d), M.hid_of(M.at.d)))
         at_ok = M.closure_ok(at, None, FALSE)
         if n == 2:
@@ -505,6 +532,8 @@ def chains(ctx):
         ctx.prove(f"chain{n}-learnt-ticket-verifies", I, z3.And(M.added("ats", M.hid_of(at.d)), z3.Not(ok)), vars=vars_, replay=nope)
         ctx.prove(f"chain{n}-roots-untouched", I, z3.BoolVal(len(M.roots.log) != M.n0["roots"]), vars=vars_, replay=nope)
     ctx.bound("chains of one and two certificates with symbolic content against a store with one root / AA / known AT")
+    if learning_only:
+        ctx.stub("ideal-crypto model of C09 (injective coder, signature predicate); real replay with the fake injective coder and scripted backend")
 
 
 def _is_none(I, v):
